@@ -190,30 +190,143 @@ theorem takagi_complex_factors {G : Type} [Monoid G] (v vt d cq r rt : G)
     _ = v * (d * r) * r * vt := by rw [hcomm]
     _ = v * d * (r * r) * vt := by simp [mul_assoc]
 
+theorem takagiInsert_perm (a : Int × Nat) : ∀ l, (takagiInsert a l).Perm (a :: l) := by
+  intro l
+  induction l with
+  | nil => exact List.Perm.refl _
+  | cons b l ih =>
+    unfold takagiInsert
+    by_cases h : takagiBefore a b = true
+    · rw [if_pos h]
+    · rw [if_neg h]
+      exact ((List.Perm.cons b ih).trans (List.Perm.swap a b l))
+
+theorem takagiSort_perm : ∀ l, (takagiSort l).Perm l := by
+  intro l
+  induction l with
+  | nil => exact List.Perm.refl _
+  | cons a l ih => exact (takagiInsert_perm a _).trans (List.Perm.cons a ih)
+
+theorem takagiInsert_pairwise (a : Int × Nat) : ∀ l, l.Pairwise (fun x y => takagiBefore x y = true) →
+    (takagiInsert a l).Pairwise (fun x y => takagiBefore x y = true) := by
+  intro l
+  induction l with
+  | nil => intro _; simp [takagiInsert]
+  | cons b l ih =>
+    intro hp
+    have hb := List.pairwise_cons.mp hp
+    unfold takagiInsert
+    by_cases h : takagiBefore a b = true
+    · rw [if_pos h]
+      refine List.pairwise_cons.mpr ⟨?_, hp⟩
+      intro x hx
+      rcases List.mem_cons.mp hx with rfl | hx
+      · exact h
+      · have := hb.1 x hx
+        simp only [takagiBefore, decide_eq_true_eq] at *
+        omega
+    · rw [if_neg h]
+      refine List.pairwise_cons.mpr ⟨?_, ih hb.2⟩
+      intro x hx
+      rcases List.mem_cons.mp ((takagiInsert_perm a l).mem_iff.mp hx) with rfl | hx
+      · simp only [takagiBefore, decide_eq_true_eq] at *
+        omega
+      · exact hb.1 x hx
+
+theorem takagiSort_pairwise : ∀ l, (takagiSort l).Pairwise (fun x y => takagiBefore x y = true) := by
+  intro l
+  induction l with
+  | nil => simp [takagiSort]
+  | cons a l ih => exact takagiInsert_pairwise a _ ih
+
 theorem takagiOrder_perm (l : List Int) :
     (takagiOrder l).Perm ((l.map fun x => (x.natAbs : Int)).zipIdx) :=
-  List.mergeSort_perm _ _
+  takagiSort_perm _
 
 /-- the returned values are in decreasing order -/
 theorem takagiOrder_sorted (l : List Int) :
     (takagiOrder l).Pairwise fun a b => b.1 ≤ a.1 := by
-  have h := List.pairwise_mergeSort
-    (le := fun (a b : Int × Nat) => decide (b.1 < a.1 ∨ (b.1 = a.1 ∧ b.2 ≤ a.2)))
-    (by intro a b c h1 h2; simp only [decide_eq_true_eq] at *; omega)
-    (by intro a b; simp only [Bool.or_eq_true, decide_eq_true_eq]; omega)
-    ((l.map fun x => (x.natAbs : Int)).zipIdx)
-  refine List.Pairwise.imp ?_ h
+  refine List.Pairwise.imp ?_ (takagiSort_pairwise _)
   intro a b hab
-  simp only [decide_eq_true_eq] at hab
+  simp only [takagiBefore, decide_eq_true_eq] at hab
   omega
 
 /-- and they are non-negative -/
 theorem takagiOrder_nonneg (l : List Int) : ∀ p ∈ takagiOrder l, 0 ≤ p.1 := by
   intro p hp
-  have := (takagiOrder_perm l).mem_iff.mp hp
-  obtain ⟨h1, _⟩ := List.mem_zipIdx this
-  sorry
+  have h1 := List.fst_mem_of_mem_zipIdx ((takagiOrder_perm l).mem_iff.mp hp)
+  obtain ⟨x, _, hx⟩ := List.mem_map.mp h1
+  rw [← hx]; exact Int.natCast_nonneg _
+
+/-- every index occurs exactly once: the order is a permutation of the positions, with the right value -/
+theorem takagiOrder_index (l : List Int) (p : Int × Nat) (hp : p ∈ takagiOrder l) :
+    ∃ x, l[p.2]? = some x ∧ p.1 = (x.natAbs : Int) := by
+  have h1 := List.mem_zipIdx_iff_getElem?.mp ((takagiOrder_perm l).mem_iff.mp hp)
+  rw [List.getElem?_map] at h1
+  cases h : l[p.2]? with
+  | none => rw [h] at h1; simp at h1
+  | some x =>
+    rw [h] at h1
+    simp only [Option.map_some, Option.some.injEq] at h1
+    exact ⟨x, rfl, h1.symm⟩
 
 end takagi
+
+/-! ### `bloch_messiah`: the reordering permutation -/
+section bm
+
+/-- `pmat` is symmetric (the code uses `pmat @ diag(ss) @ pmat`): the permutation is an involution of `0 … 2n-1` -/
+theorem bmPerm_involutive (n i : Nat) (hi : i < 2 * n) : bmPerm n (bmPerm n i) = i ∧ bmPerm n i < 2 * n := by
+  unfold bmPerm
+  by_cases h : i < n
+  · simp [h]; omega
+  · simp only [h, if_false]
+    have h2 : ¬ (3 * n - 1 - i < n) := by omega
+    simp only [h2, if_false]
+    omega
+
+/-- singular values of a symplectic matrix sorted decreasingly come in pairs `ss (2n-1-i) = inv (ss i)`; after the
+permutation the diagonal is `(s₁ … s_n, 1/s₁ … 1/s_n)`: entry `n + i` is the inverse of entry `i`. -/
+theorem bmPerm_pairs {α : Type} (n : Nat) (ss : Nat → α) (inv : α → α)
+    (hpair : ∀ i, i < n → ss (2 * n - 1 - i) = inv (ss i)) (i : Nat) (hi : i < n) :
+    ss (bmPerm n i) = ss i ∧ ss (bmPerm n (n + i)) = inv (ss i) := by
+  unfold bmPerm
+  have h2 : ¬ (n + i < n) := by omega
+  simp only [hi, if_true, h2, if_false, true_and]
+  have : 3 * n - 1 - (n + i) = 2 * n - 1 - i := by omega
+  rw [this]; exact hpair i hi
+
+end bm
+
+/-! ### the driver's tabulation helpers are the identity inside the matrix -/
+section tab
+
+theorem ofTable_tabulate {K : Type} [Zero K] (n : Nat) (U : CMat K) (i j : Nat) (hi : i < n) (hj : j < n) :
+    ofTable (tabulate n U) i j = U i j := by
+  simp [ofTable, tabulate, Array.getD_eq_getD_getElem?, Array.getElem?_ofFn, hi, hj]
+
+theorem ofTablePat_tabulatePat (n : Nat) (Z : Pat) (i j : Nat) (hi : i < n) (hj : j < n) :
+    ofTablePat (tabulatePat n Z) i j = Z i j := by
+  simp [ofTablePat, tabulatePat, Array.getD_eq_getD_getElem?, Array.getElem?_ofFn, hi, hj]
+
+/-- the pattern the driver evaluates (tabulated after every step) is the proved `runPat` inside the matrix,
+for every schedule whose mixes stay inside the matrix -/
+theorem runPatTab_eq (n : Nat) (l : List Step) : ∀ (a : Array (Array Bool)) (Z : Pat),
+    (∀ s ∈ l, s.p + 1 < n) → (∀ i j, i < n → j < n → ofTablePat a i j = Z i j) →
+    ∀ i j, i < n → j < n → ofTablePat (runPatTab n a l) i j = runPat Z l i j := by
+  induction l with
+  | nil => intro a Z _ h; exact h
+  | cons s l ih =>
+    intro a Z hs h
+    have hp := hs s List.mem_cons_self
+    show ∀ i j, i < n → j < n →
+      ofTablePat (runPatTab n (tabulatePat n (applyStep (ofTablePat a) s)) l) i j = runPat (applyStep Z s) l i j
+    apply ih _ _ (fun t ht => hs t (List.mem_cons_of_mem _ ht))
+    intro i j hi hj
+    rw [ofTablePat_tabulatePat n _ i j hi hj]
+    simp only [applyStep]
+    rw [h s.p j (by omega) hj, h (s.p + 1) j hp hj, h i s.p hi (by omega), h i (s.p + 1) hi hp, h i j hi hj]
+
+end tab
 
 end SFV.Decomp
